@@ -31,6 +31,57 @@ def load_programs(work, tier, repo=None):
     return progs
 
 
+def refound_selftest(ck, mod, work):
+    """thorough tier: every defect that was repaired by a `fix:` commit must be reported again by its rule when the
+    fix is reverted in a scratch copy of the current tree (rules are live, not just silent).  A fix whose reverse
+    patch no longer applies to the current tree is skipped with a note."""
+    import re
+    import shutil
+    import subprocess
+    from kcheck.report import KNOWN
+    entries = []
+    if os.path.exists(KNOWN):
+        for line in open(KNOWN):
+            m = re.match(r"fixed:\s+property=(\S+)\s+([0-9a-f]{7,40})\s+(R\d+\w*)", line.strip())
+            if m and m.group(1) == ck.prop:
+                entries.append((m.group(2), m.group(3)))
+    for commit, rule in entries:
+        copy = os.path.join(work.path, "revert-%s" % commit)
+        os.makedirs(copy)
+        for sub in ("lib", "src", "README.md", "CMakeLists.txt"):
+            src = os.path.join(build.REPO, sub)
+            if os.path.isdir(src):
+                shutil.copytree(src, os.path.join(copy, sub))
+            elif os.path.exists(src):
+                shutil.copy(src, os.path.join(copy, sub))
+        diff = subprocess.run(["git", "-C", build.REPO, "show", "--format=", commit, "--", "lib", "src"],
+                              stdout=subprocess.PIPE, stderr=subprocess.PIPE)
+        if diff.returncode != 0 or not diff.stdout:
+            ck.info("selftest", "fix %s: commit not available in /repo's history; skipped" % commit)
+            continue
+        ap = subprocess.run(["patch", "-R", "-p1", "-s", "-f", "-d", copy], input=diff.stdout, stdout=subprocess.PIPE, stderr=subprocess.PIPE)
+        if ap.returncode != 0:
+            ck.info("selftest", "fix %s: reverse patch does not apply to the current tree; skipped" % commit)
+            shutil.rmtree(copy, ignore_errors=True)
+            continue
+        units = build.extract(work, repo=copy, config="omp+avx2")
+        prog = Program(units, "omp+avx2", copy)
+        sub = Check(ck.prop, ck.tier, ck.seed)
+        sub.known = {}
+        sub.work = work
+        try:
+            mod.run(sub, {"omp+avx2": prog})
+        except Exception as e:       # noqa
+            sub.broken.append(str(e))
+        fired = any(v["rule"] == rule for v in sub.violations)
+        ck.controls.append((rule, "revert of fix %s" % commit, fired, True))
+        ck.inst("selftest", "fix %s" % commit, "with the fix reverted in a scratch copy, rule %s reports: %s" % (
+            rule, [v["key"] for v in sub.violations if v["rule"] == rule][:3]), "omp+avx2")
+        if not fired:
+            ck.broken.append("self-test: rule %s no longer reports the defect repaired by %s when that fix is reverted" % (rule, commit))
+        shutil.rmtree(copy, ignore_errors=True)
+
+
 def run_property(pid, tier, seed):
     mod = importlib.import_module("kcheck.rules.%s" % pid.lower())
     ck = Check(pid, tier, seed)
@@ -40,6 +91,9 @@ def run_property(pid, tier, seed):
         ck.configs = list(progs)
         ck.work = work
         explanation = mod.run(ck, progs)
+        if tier == "thorough":
+            ck.rule("selftest", "every defect repaired by a fix: commit is reported again by its rule when the fix is reverted in a scratch copy")
+            refound_selftest(ck, mod, work)
         return ck.finish(explanation)
     finally:
         work.cleanup()
